@@ -19,6 +19,7 @@ NOT_DECIDED = 'cardinality 1 of the rank-list intersections (topology arithmetic
 
 
 def run(ctx: Ctx) -> None:
+    ctx.do(A.rule_rank_arg, 'GPT')
     ctx.assumptions |= {'A2', 'A5'}
     ctx.do(A.rule_det_unif, 'GPT')
     ctx.do(A.rule_det_hash, ('kfac.gpt_neox.assignment', 'kfac.gpt_neox.mpu'))
